@@ -24,8 +24,10 @@ def build(sys_, order, cons):
         if i == 0:
             objs[i] = fdtdx.SimulationVolume(name="o0", partial_grid_shape=pgs, partial_real_shape=prs)
         else:
+            rp = (sys_.get("real_pos") or {}).get(str(i))      # optional partial_real_position (predicate-only cases; not in the Coq model)
+            kw = {"partial_real_position": tuple(None if v is None else float(v) for v in rp)} if rp else {}
             objs[i] = fdtdx.UniformMaterialObject(name=f"o{i}", partial_grid_shape=pgs, partial_real_shape=prs,
-                                                  material=fdtdx.Material(permittivity=2.0))
+                                                  material=fdtdx.Material(permittivity=2.0), **kw)
     cl = []
     sd = lambda s: "+" if s else "-"
     for c in cons:
